@@ -8,6 +8,7 @@ import (
 	"math/big"
 	"os"
 	"path/filepath"
+	"slices"
 	"sync"
 	"sync/atomic"
 	"testing"
@@ -585,11 +586,12 @@ func c39WantHead(p c39Params) int {
 }
 
 func c39Grid(r *mc.R) (abandon, kvprefix []c39Params) {
-	maxLen := mc.Pick(r, 4, c39MaxLen)
-	sides := mc.Pick(r, []int{0, 2}, []int{0, 1, 2, 3, 4})
+	maxLen := mc.Pick(r, 4, 6)
+	sides := mc.Pick(r, []int{0, 2}, []int{0, 1, 2, 4})
 	freezes := mc.Pick(r, []int{0, 2}, []int{0, 2, 4})
 	kvMaxLen := mc.Pick(r, 3, 5)
-	kvSide := mc.Pick(r, 2, 1) // side chain length used in the kv-prefix histories
+	kvSides := mc.Pick(r, []int{2}, []int{1, 2}) // side chain lengths used in the kv-prefix histories
+	r.Bound("kvprefix_side_lengths", kvSides)
 	r.Bound("max_canonical_len", maxLen)
 	r.Bound("side_lengths", sides)
 	r.Bound("freeze_thresholds", freezes)
@@ -623,7 +625,7 @@ func c39Grid(r *mc.R) (abandon, kvprefix []c39Params) {
 								abandon = append(abandon, c39Params{Scheme: s.scheme, Snapshots: s.snaps, Len: l, Side: side, Fork: fk, Commit: c, Freeze: fr, Pivot: pv, Crash: "abandon"})
 							}
 						}
-						if l <= kvMaxLen && (side == 0 || side == kvSide) {
+						if l <= kvMaxLen && (side == 0 || slices.Contains(kvSides, side)) {
 							kvprefix = append(kvprefix, c39Params{Scheme: s.scheme, Snapshots: s.snaps, Len: l, Side: side, Fork: fk, Commit: c})
 						}
 					}
@@ -668,56 +670,6 @@ func TestVerif_C39(t *testing.T) {
 		r.Bound("abandon_cases", len(abandon))
 		r.Bound("kvprefix_histories", len(kvprefix))
 		scratch := c39Scratch()
-
-		// --- abandon model
-		r.Parallel(len(abandon), func(i int) {
-			p := abandon[i]
-			r.Case(p, func() error {
-				dir := ""
-				if p.Freeze > 0 {
-					dir = filepath.Join(scratch, fmt.Sprintf("c39-%d", c39DirSeq.Add(1)))
-					defer os.RemoveAll(dir)
-				}
-				h, err := c39Build(f, p, false, dir)
-				if err != nil {
-					if h != nil && h.chain != nil {
-						h.abandon()
-					}
-					return err
-				}
-				var present []c39Inserted
-				if p.Freeze == 0 {
-					present = h.inserted
-				}
-				h.abandon()
-				if err := h.openDB(); err != nil {
-					return fmt.Errorf("cannot re-open database: %v", err)
-				}
-				rc, err := c39Recover(f, p, h.db, []int{c39WantHead(p)}, present, nil, nil)
-				rc.close()
-				if err != nil {
-					return err
-				}
-				switch {
-				case rc.awaiting:
-					r.Outcome("abandon/stateless-genesis-awaits-state-sync")
-				case c39WantHead(p) == 0:
-					r.Outcome("abandon/head=genesis")
-				case c39WantHead(p) == p.Len:
-					r.Outcome("abandon/head=tip")
-				default:
-					r.Outcome("abandon/head=flushed-block")
-				}
-				if rc.danglingSnapMarker {
-					r.Outcome("abandon/stored-snap-marker-dangling")
-				}
-				return nil
-			})
-			r.Distinct(fmt.Sprintf("%+v", p))
-			if i%97 == 0 {
-				r.Sample(p)
-			}
-		})
 
 		// --- key-value prefix model
 		r.Parallel(len(kvprefix), func(i int) {
@@ -787,5 +739,55 @@ func TestVerif_C39(t *testing.T) {
 				r.Sample(p)
 			}
 		})
+		// --- abandon model
+		r.Parallel(len(abandon), func(i int) {
+			p := abandon[i]
+			r.Case(p, func() error {
+				dir := ""
+				if p.Freeze > 0 {
+					dir = filepath.Join(scratch, fmt.Sprintf("c39-%d", c39DirSeq.Add(1)))
+					defer os.RemoveAll(dir)
+				}
+				h, err := c39Build(f, p, false, dir)
+				if err != nil {
+					if h != nil && h.chain != nil {
+						h.abandon()
+					}
+					return err
+				}
+				var present []c39Inserted
+				if p.Freeze == 0 {
+					present = h.inserted
+				}
+				h.abandon()
+				if err := h.openDB(); err != nil {
+					return fmt.Errorf("cannot re-open database: %v", err)
+				}
+				rc, err := c39Recover(f, p, h.db, []int{c39WantHead(p)}, present, nil, nil)
+				rc.close()
+				if err != nil {
+					return err
+				}
+				switch {
+				case rc.awaiting:
+					r.Outcome("abandon/stateless-genesis-awaits-state-sync")
+				case c39WantHead(p) == 0:
+					r.Outcome("abandon/head=genesis")
+				case c39WantHead(p) == p.Len:
+					r.Outcome("abandon/head=tip")
+				default:
+					r.Outcome("abandon/head=flushed-block")
+				}
+				if rc.danglingSnapMarker {
+					r.Outcome("abandon/stored-snap-marker-dangling")
+				}
+				return nil
+			})
+			r.Distinct(fmt.Sprintf("%+v", p))
+			if i%97 == 0 {
+				r.Sample(p)
+			}
+		})
+
 	})
 }
